@@ -70,7 +70,7 @@ def check(run, replay=None):
                 "non-trivial = a status change happens after the first pause")
     run.trusted += ["harness tools/props/c10.py", "Python pickle (the round trip is exercised, modelled as identity)"]
     run.assumptions += ["Newton restarts from a fresh initial guess in the continued run: numeric tables are compared at 1e-6 relative"]
-    ok, log, fails = common.coq_make(["theories/C10/Proofs.vo", "theories/C10/Invariant.vo", "theories/C10/Times.vo", "theories/C04/Window.vo", "theories/C04/AtTimeSet.vo"])
+    ok, log, fails = common.coq_make(["theories/C10/Proofs.vo", "theories/C10/Invariant.vo", "theories/C10/Times.vo", "theories/C04/Window.vo", "theories/C04/AtTimeSet.vo", "theories/C04/AtTimeAll.vo", "theories/C04/Mixed.vo"])
     if not ok:
         for f, ln, msg in fails:
             run.tie_broken("proof no longer checks: %s line %s: %s" % (f, ln, common.theorem_line(f, ln)), msg)
